@@ -236,7 +236,13 @@ class Driver:
                 db.__exit__(None, None, None)          # leaving the `with` block closes the database
             else:
                 db.close()
-            self.db = tf.TinyFlux(self.path, auto_index=o[1], **{k: v for k, v in self.csv_kwargs.items() if k != "access_mode"})
+            kw2 = {k: v for k, v in self.csv_kwargs.items() if k != "access_mode"}
+            self._n_reopen = getattr(self, "_n_reopen", 0) + 1
+            if not any(k in kw2 for k in ("quoting", "delimiter", "quotechar", "lineterminator", "escapechar", "doublequote", "dialect")) and self._n_reopen % 2 == 1:
+                # a later session writes with another quoting policy (the reader takes both): rows of one file need not all be spelled alike
+                import csv as _csv
+                kw2["quoting"] = _csv.QUOTE_ALL
+            self.db = tf.TinyFlux(self.path, auto_index=o[1], **kw2)
             self.handles = {}
             return ("unit",)
         if k == "index_valid":
